@@ -152,3 +152,23 @@ def register(reg):
                  modifies=['violations', 'once_msgs', 'needsnl', 'parse_errors', '_descr', '_linenum', '_fatal'], raises={},
                  ensures=["implies(called('reportErrors'), arg_of('reportErrors', 'section') == 'signature' and "
                           "arg_of('reportErrors', 'obj') == (cast_overload(func).primary if isinstance(func, FunctionOverload) else cast_function(func)))"])
+
+    # ---- extension: a deprecation decorator that cannot be understood is a message, not the end of the run ------------
+    DEP = 'pydoctor/extensions/deprecate.py'
+    reg.shape('Call', {'func': 'Ref[expr]'}, bases=('expr',))
+    reg.shapes['Documentable'].fields.update({'extra_info': 'Seq[Ref[ParsedDocstring]]'})
+    reg.contract('pydoctor/astutils.py', 'node2fullname', params={'expr': 'RefN[expr]', 'ctx': 'Ref[Documentable]'}, returns='Opt[Str]', raises={}, assumed=True,
+                 source='astutils.node2fullname: dotted name of an expression expanded in a scope, None for anything else; total')
+    reg.contract(DEP, 'deprecatedToUsefulText', params={'ctx': 'Ref[Documentable]', 'name': 'Str', 'deprecated': 'Ref[Call]'},
+                 returns='Tuple[Str,Str]', raises={'any:Exception': 'True'}, assumed=True,
+                 source='evaluates the decorator arguments (incremental.Version, signature binding): may fail with anything')
+    reg.contract(E, 'parse_docstring',
+                 params={'obj': 'Ref[Documentable]', 'doc': 'Str', 'source': 'Ref[Documentable]', 'markup': 'Opt[Str]', 'section': 'Str'},
+                 returns='Ref[ParsedDocstring]', raises={}, assumed=True,
+                 modifies=['violations', 'once_msgs', 'needsnl', 'parse_errors', '_descr', '_linenum', '_fatal'], source='verified under C08')
+    reg.contract(DEP, 'getDeprecated', params={'self': 'Ref[Documentable]', 'decorators': 'Seq[Ref[expr]]'}, raises={},
+                 modifies=['violations', 'once_msgs', 'needsnl', 'parse_errors', '_descr', '_linenum', '_fatal', 'extra_info'],
+                 ensures=["implies(called('deprecatedToUsefulText') and not called('parse_docstring'), called('Documentable.report'))",
+                          'len(self.extra_info) >= len(old(self.extra_info))'],
+                 loops={0: Loop(index='i', modifies=['violations', 'once_msgs', 'needsnl', 'parse_errors', '_descr', '_linenum', '_fatal', 'extra_info'],
+                                invariant=['len(self.extra_info) >= len(old(self.extra_info))'])})
